@@ -42,7 +42,11 @@ static void user_operations(const Scenario* sc) {
   std::vector<std::string> src = split_words(sc->sources);
 #ifdef SINGLE_EDIT
   // (cheaper tier for the larger shapes) at most one source is edited
-  { int which = verif_choice("edit_one_source", (int)src.size() + 1); if (which > 0) { edit_file(src[which - 1]); verif_note(("edit " + src[which - 1]).c_str()); } }
+  { int which = verif_choice("edit_one_source", (int)src.size() + 1); int amount = 1;
+#ifdef DOUBLE_EDIT
+    if (which > 0) amount = 1 + verif_choice("edit_amount_minus_1", 2);       // (a restat-style generator reproduces its output for some edits and not for others)
+#endif
+    if (which > 0) { edit_file(src[which - 1], amount); verif_note(("edit " + src[which - 1]).c_str()); } }
 #else
   for (size_t i = 0; i < src.size(); i++) if (verif_bool("edit_source")) { edit_file(src[i]); verif_note(("edit " + src[i]).c_str()); }
 #endif
@@ -203,7 +207,11 @@ extern "C" int harness_main() {
   VERIF_ASSERT(r.parsed && r.added, "the scenario manifest parses and the targets are known");
   observe(r);
   VERIF_ASSERT(!r.stuck, "C06: ninja never gives up with 'stuck'");
-  VERIF_ASSERT(r.max_running <= (o.token_pool >= 0 ? o.token_pool + 1 : o.run.parallelism), "C06: the number of running commands never exceeds the limit");
+  { int extra = 0;
+#ifdef REAL_RUNNER
+    extra = 1;      // another client may have returned one more token to the pool
+#endif
+    VERIF_ASSERT(r.max_running <= (o.token_pool >= 0 ? o.token_pool + 1 + extra : o.run.parallelism), "C06: the number of running commands never exceeds the limit"); }
 #ifdef WITH_JOBSERVER
   VERIF_ASSERT(r.tokens_outstanding == 0, "C06: every jobserver token is returned by the time ninja exits, on every path");
   verif_reach(r.rc == 0 ? "tokens-success" : "tokens-failure");
@@ -246,6 +254,9 @@ extern "C" int harness_main() {
   g_tree->remove(".ninja_lock");        // whether the lock file survives is immaterial: ninja only touches and stats it
   verif_reach(died ? "died" : "survived");
   verif_obs(died);
+#ifdef OPS_BEFORE_RECOVERY
+  user_operations(sc);                  // the user goes on editing before running ninja again
+#endif
 #endif
   // recovery: the next invocation starts normally and, once it succeeds, the tree equals a clean build
   InvocationOpts o2; o2.targets = o.targets; o2.run.parallelism = 1;
